@@ -420,8 +420,24 @@ def run_impl(tag, lines, bins):
     return impl, meta
 
 
+def py_preimage(i):
+    """python mirror of Model/Inbox.v id_preimage, used only to obtain the digests in the same coqc round;
+    run_model checks it byte-for-byte against the model's own env_preimage (a mismatch breaks the check)"""
+    k, b, ps, _ = i
+    ps = sorted(set(ps))
+    be = lambda n, w: list(n.to_bytes(w, "big"))
+    le = lambda n, w: list(n.to_bytes(w, "little"))
+    if not ps:
+        return list(b"ingress:") + be(k, 32) + list(b)
+    out = list(b"ingress:causal:v2\0") + be(k, 32) + le(len(b), 8) + list(b) + le(len(ps), 8)
+    for p in ps:
+        out += list(b"contract-inverse-target\0" if p[0] else b"tick-receipt\0")
+        out += be(p[1], 32) + le(p[2], 8) + le(p[3], 8) + be(p[4], 32) + be(p[5], 32) + be(p[6], 32) + be(p[7], 32)
+    return out
+
+
 def run_model(tag, cases):
-    pres = vf.coq_eval(tag + "pre", PRE, [preimage_term(c) for c in cases])
+    pres = [[py_preimage(i) for i in c["intents"]] for c in cases]
     flat = [vf.hexb(p) for ps in pres for p in ps]
     digs = vf.vfhash(flat) if flat else []
     k = 0
@@ -429,10 +445,17 @@ def run_model(tag, cases):
     for c, ps in zip(cases, pres):
         ids = [int(digs[k + j], 16) for j in range(len(ps))]
         k += len(ps)
-        terms.append(run_term(c, ids))
+        terms.append("(%s, %s)" % (preimage_term(c), run_term(c, ids)))
         allids.append(ids)
-    vals = vf.coq_eval(tag + "run", PRE, terms)
-    return [render_model(c, ids, v) for c, ids, v in zip(cases, allids, vals)]
+    sh = 4 if len(cases) <= 400 else 8
+    vals = vf.coq_eval(tag + "run", PRE, terms, shards=sh)
+    out = []
+    for c, ids, ps, v in zip(cases, allids, pres, vals):
+        mp = [list(x) for x in v[0]]
+        if mp != ps:
+            raise vf.Broken("model preimage differs from the hashed preimage on " + render_case(c))
+        out.append(render_model(c, ids, v[1]))
+    return out
 
 
 def both(tag, cases, bins):
@@ -488,7 +511,10 @@ def run(tier, seed, replay=None):
                              "harness c08.rs (abstraction: dispositions/pending/batches -> canonical line; pending read through "
                              "HeadInbox::clone + admit; committed_ingress probed by exact-head re-submission on a clone)",
                              "blake3 crate (vfhash)"]
+    import time
+    t0 = time.time()
     r.proof_phase(THEOREMS)
+    tim = {"proof_s": round(time.time() - t0, 1)}
     rcases = []
     if replay:
         d = json.load(open(replay))
@@ -500,7 +526,7 @@ def run(tier, seed, replay=None):
         allc = [parse_case(l) for l in vf.load_corpus(PROP)]
         cases = [c for c in allc if c["mode"] != "restart"]
         rcases = [c for c in allc if c["mode"] == "restart"]
-        nrt, nib, nrs = (70, 40, 16) if tier == "quick" else (1500, 500, 300)
+        nrt, nib, nrs = (60, 30, 12) if tier == "quick" else (1500, 500, 300)
         for i in range(nrt):
             cases.append(gen_rt(r.rng, tier))
         for i in range(nib):
@@ -517,7 +543,9 @@ def run(tier, seed, replay=None):
                 for n, k in [(3, 2), (4, 2), (5, 1), (6, 1)]:
                     cases += gen_exhaustive(r.rng, n, k, pol)
     try:
+        tb = time.time()
         bins = vf.cargo_build(["c08", "vfhash"])
+        tim["build_s_incl_shared_target_lock_wait"] = round(time.time() - tb, 1)
         r.phase("P3_build", ok=True)
     except vf.Broken as e:
         r.is_broken("harness-build", e)
@@ -529,6 +557,8 @@ def run(tier, seed, replay=None):
     except vf.Broken as e:
         r.is_broken("correspondence-run", e)
         return r.finish()
+    tim["impl_and_model_s"] = round(time.time() - tb - tim["build_s_incl_shared_target_lock_wait"], 1)
+    r.cov["timings"] = tim
     bad = vf.diff_lines(r, lines, impl, model)
     # implementation-side oracle: one violation per stable signature, on a shrunk case
     first = {}
@@ -539,7 +569,8 @@ def run(tier, seed, replay=None):
         def still(cand):
             _, mm = run_impl("c08shrink", [render_case(cand)], bins)
             return sg in sigs_of(mm[0]["oracle"])
-        small = shrink_case(c, still) if not replay else c
+        known = any(k.get("signature") == "oracle:" + sg for k in vf.known_findings(PROP))
+        small = shrink_case(c, still) if not (replay or known) else c
         l = render_case(small)
         _, mm = run_impl("c08shrink", [l], bins)
         r.violation("oracle:" + sg, f"implementation oracle failed: {mm[0]['oracle']}", {"case": l, "oracle": mm[0]["oracle"]})
@@ -610,3 +641,36 @@ def run(tier, seed, replay=None):
     r.phase("P4_correspondence", cases=len(cases), differing=len(bad))
     r.phase("P5_oracle", failing=sum(1 for m in meta + rmeta if m["oracle"] != "ok"), restart_cases=len(rcases))
     return r.finish()
+
+
+MANIFEST = {
+    "category": "proof",
+    "text": ("Coq theorems (no axioms; BLAKE3 is a section variable, binding results conclude `... or Collision H`) over an "
+             "executable model of IngressEnvelope / compute_ingress_id (parentless and causal:v2 preimages), HeadInbox "
+             "(ingest with first-wins entries, admit, admit_partitioned, set_policy eviction, all three policies), writer-head "
+             "registration and target resolution (default / named / exact), WorldlineRuntime::ingest, the admit/commit loop of "
+             "SchedulerCoordinator::super_tick with committed_ingress and commit_with_state's batch dedupe: the id is a function "
+             "of kind, bytes and the SET of cited parents and is uniquely decodable per domain; any two submission sequences with "
+             "the same set of envelopes (any order, any retries) leave the same inbox and the same runtime state, hence the same "
+             "admitted batches (canonical ascending prefix of length min(budget, pending)) and commits for every continuation; "
+             "for every op sequence no (head, ingress id) is committed twice and a retry while pending or after commit is a "
+             "Duplicate that changes nothing. The model is tied to /repo by running it (vm_compute, hash table of real BLAKE3 "
+             "digests of the model's own preimages) and the real WorldlineRuntime + SchedulerCoordinator::super_tick / bare "
+             "HeadInbox on the same generated scripts and comparing ingress ids, registration results, dispositions, admitted batch "
+             "order per pass, pending ids with retained target spelling and committed sets; the harness additionally checks the "
+             "property itself on the implementation: equal StepRecords, tick receipts, patch digests, commit hashes and state roots "
+             "under all (<=720) or sampled arrival orders per window, retry insertions and equivalent target spellings, exhaustive "
+             "pass placements for small sets, no (head, id) committed twice, committed_ingress probed by re-submission, and "
+             "retries after a restore_* restart (ticketed path) are duplicates."),
+    "note": ("Trusted: Coq kernel + vm_compute; python generator/renderer (incl. a python mirror of the preimage that is checked "
+             "byte-for-byte against the model's on every case); harness c08.rs; blake3 crate. Modelled rather than verified: "
+             "head_inbox.rs, the ingress slice of coordinator.rs, committed_ingress, commit_with_state dedupe as Gallina functions. "
+             "Not modelled (exercised only): engine rule execution, provenance, receipt correlation, ticketed ingress, restore_* "
+             "(WAL recovery is C10, rollback is C09). admit_partitioned is pub(crate): modelled and proved about, not exercised. No "
+             "public API changes the policy of a registered head: policy changes between passes are exercised on bare HeadInbox "
+             "values and only modelled at runtime level. Refuted and documented: the id is not injective across the two domains "
+             "for hand-made kinds (id_cross_domain_alias_refuted, replayed: equal real ids); the id does not cover the routing "
+             "target and first-wins keeps an order-dependent retained envelope (ingest_target_spelling_refuted, DESIGN F11) - "
+             "observable only in retained envelope material, never in commits/receipts/state roots (measured on every run). Known "
+             "finding: restore_* forgets commits made through plain (unticketed) WorldlineRuntime::ingest."),
+}
